@@ -242,9 +242,18 @@ Definition as_ref (o : option obj) : option oid :=
 
 Inductive loop_res := LOk | LPanic | LHang | LFuel.
 
+(* let count = objects.get(&id).as_dict().get("Count").and_then(|c| self.dereference(c)).as_i64()   -- Count may be an indirect
+                                                                     object (fix: commit for C11-count-indirect) *)
+Definition read_count (m : objmap) (pt : dict) : option Z :=
+  match dict_get pt K_Count with
+  | Some c => match dereference m c with Some (_, OInt n) => Some n | _ => None end
+  | None => None
+  end.
+
 (* while let Ok(id) = page_tree_ref {
+     let count = ..;
      if let Some(pt) = objects.get_mut(&id).and_then(as_dict_mut) {
-        if let Ok(count) = pt.get("Count").as_i64() { pt.set("Count", count - 1) }     -- checked i64 subtraction
+        if let Some(count) = count { pt.set("Count", count - 1) }                      -- checked i64 subtraction
         page_tree_ref = pt.get("Parent").as_reference() } else { break } }
    A chain without a cycle visits at most |objects| nodes; running out of [fuel] = |objects| + 1 means the
    Parent chain is cyclic and the Rust loop keeps going (until a Count underflows, 2^63 rounds later). *)
@@ -257,12 +266,12 @@ Fixpoint count_loop (fuel : nat) (m : objmap) (r : option oid) : objmap * loop_r
     | S k =>
       match lookup m id with
       | Some (ODict pt) =>
-        match dict_get pt K_Count with
-        | Some (OInt c) =>
+        match read_count m pt with
+        | Some c =>
           if (c =? I64_MIN)%Z then (m, LPanic)                     (* attempt to subtract with overflow *)
           else let pt' := dict_set pt K_Count (OInt (c - 1)) in
                count_loop k (update m id (ODict pt')) (as_ref (dict_get pt' K_Parent))
-        | _ => count_loop k m (as_ref (dict_get pt K_Parent))
+        | None => count_loop k m (as_ref (dict_get pt K_Parent))
         end
       | _ => (m, LOk)
       end
@@ -284,7 +293,12 @@ Fixpoint delete_pages_loop (pages : list (N * oid)) (nums : list N) (d : doc) : 
       | None => (d, LFuel)
       | Some (d1, None) => delete_pages_loop pages ns d1
       | Some (d1, Some page) =>
-        let r := match page with ODict pd => as_ref (dict_get pd K_Parent) | _ => None end in
+        (* self.dereference(&page).and_then(as_dict): the page object may be a reference to the page dictionary
+           (fix: commit for C11-page-reference-object) *)
+        let r := match dereference (d_objects d1) page with
+                 | Some (_, ODict pd) => as_ref (dict_get pd K_Parent)
+                 | _ => None
+                 end in
         let '(m2, lr) := count_loop (S (length (d_objects d1))) (d_objects d1) r in
         match lr with
         | LOk => delete_pages_loop pages ns (with_objs d1 m2)
@@ -373,41 +387,104 @@ Definition set_page_entry (m : objmap) (page : oid) (k : bytes) (v : obj) : opti
   | None => None
   end.
 
+(* let stream_id = |object| match self.dereference(object) { Ok((Some(id), Object::Stream(_))) => Some(id), _ => None } *)
+Definition stream_id_of (m : objmap) (o : obj) : option oid :=
+  match dereference m o with
+  | Some (Some id, OStream _ _) => Some id
+  | _ => None
+  end.
+
+(* the stream a page shows when it shows exactly one (fix: commit for C11-content-indirect): Contents, or the only item of the
+   array it is, may sit behind references
+     match self.dereference(contents) { Ok((_, Array(arr))) => if arr.len() == 1 { stream_id(&arr[0]) } else { None },
+                                         _ => stream_id(contents) } *)
+Definition single_stream (m : objmap) (contents : obj) : option oid :=
+  match dereference m contents with
+  | Some (_, OArr l) => match l with [x] => stream_id_of m x | _ => None end
+  | _ => stream_id_of m contents
+  end.
+
+(* let new_stream = self.add_object(Stream::new(dictionary! {}, content));
+   if let Ok(Object::Dictionary(dict)) = self.get_object_mut(page_id) { dict.set("Contents", new_stream) } *)
+Definition replace_page_content (d : doc) (page : oid) (content : bytes) : doc * out :=
+  match add_object d (new_stream content) with
+  | None => (d, OPanic)
+  | Some (d1, nid) =>
+    match set_page_entry (d_objects d1) page K_Contents (ORef (fst nid) (snd nid)) with
+    | Some m2 => (with_objs d1 m2, OOk)
+    | None => (d1, OOk)
+    end
+  end.
+
+(* Document::is_content_stream_of_another_page (fix: commit for C11-content-shared):
+     let leads_to_stream = |object| matches!(self.dereference(object), Ok((Some(id), _)) if id == stream_id);
+     self.page_iter().filter(|id| *id != page_id).any(|id|
+       match self.get_dictionary(id).and_then(|page| page.get("Contents")) {
+         Ok(contents) => match self.dereference(contents) { Ok((_, Array(arr))) => arr.iter().any(leads_to_stream),
+                                                            Ok((id, _)) => id == Some(stream_id), Err(_) => false },
+         Err(_) => false }) *)
+Definition leads_to_stream (m : objmap) (sid : oid) (o : obj) : bool :=
+  match dereference m o with
+  | Some (Some id, _) => oid_eqb id sid
+  | _ => false
+  end.
+
+Definition page_shows_stream (m : objmap) (sid : oid) (p : oid) : bool :=
+  match get_dictionary m p with
+  | Some pd =>
+    match dict_get pd K_Contents with
+    | Some c =>
+      match dereference m c with
+      | Some (_, OArr l) => existsb (leads_to_stream m sid) l
+      | Some (Some id, _) => oid_eqb id sid
+      | _ => false
+      end
+    | None => false
+    end
+  | None => false
+  end.
+
+Definition is_content_stream_of_another_page (d : doc) (sid : oid) (page : oid) : bool :=
+  existsb (fun p => negb (oid_eqb p page) && page_shows_stream (d_objects d) sid p) (page_iter d).
+
+(* match single_stream { Some(id) if !self.is_content_stream_of_another_page(id, page_id) => change_content_stream(id, content),
+                         _ => { new stream; Contents = its reference } } *)
 Definition change_page_content (O : oracles) (d : doc) (page : oid) (content : bytes) : doc * out :=
   match get_dictionary (d_objects d) page with
   | None => (d, OErr)
   | Some pd =>
     match dict_get pd K_Contents with
     | None => (d, OErr)
-    | Some (ORef i g) => (change_content_stream O d (i, g) content, OOk)
-    | Some (OArr [x]) =>
-      match x with
-      | ORef i g => (change_content_stream O d (i, g) content, OOk)
-      | _ => (d, OOk)
+    | Some c =>
+      match single_stream (d_objects d) c with
+      | Some id =>
+        if is_content_stream_of_another_page d id page then replace_page_content d page content
+        else (change_content_stream O d id content, OOk)
+      | None => replace_page_content d page content
       end
-    | Some (OArr _) =>
-      match add_object d (new_stream content) with
-      | None => (d, OPanic)
-      | Some (d1, nid) =>
-        match set_page_entry (d_objects d1) page K_Contents (ORef (fst nid) (snd nid)) with
-        | Some m2 => (with_objs d1 m2, OOk)
-        | None => (d1, OOk)
-        end
-      end
-    | Some _ => (d, OOk)
     end
   end.
 
 (* ---------------- document.rs: add_page_contents; parser_aux.rs: add_to_page_content ---------------- *)
+(* what Contents leads to (fix: commit for C11-content-indirect):
+     match page.get("Contents") { Ok(contents) => match self.dereference(contents) {
+         Ok((_, Array(arr))) => arr.clone(), Ok((_, Stream(_))) => vec![contents.clone()], _ => vec![] }, _ => vec![] } *)
+Definition current_content_list (m : objmap) (pd : dict) : list obj :=
+  match dict_get pd K_Contents with
+  | Some c =>
+    match dereference m c with
+    | Some (_, OArr l) => l
+    | Some (_, OStream _ _) => [c]
+    | _ => []
+    end
+  | None => []
+  end.
+
 Definition add_page_contents (d : doc) (page : oid) (content : bytes) : doc * out :=
   match get_dictionary (d_objects d) page with
   | None => (d, OErr)
   | Some pd =>
-    let cur := match dict_get pd K_Contents with
-               | Some (ORef i g) => [ORef i g]
-               | Some (OArr l) => l
-               | _ => []
-               end in
+    let cur := current_content_list (d_objects d) pd in
     match add_object d (new_stream content) with
     | None => (d, OPanic)
     | Some (d1, nid) =>
